@@ -378,7 +378,74 @@ def process_state_rule(ctx: Ctx, rid: str, module_prefixes: tuple = ()) -> int:
                     n += 1
                     ctx.ob(rid, f, dflt, f"mutable default of '{pname}' is only read", not muts,
                            "" if not muts else f"the shared default of '{pname}' is modified in the function: later calls see the changes")
+    # class-level containers: one object shared by every instance; harmless while it is only read (a table of constants), state that
+    # outlives the instance as soon as a method modifies it through self (and the constructor does not give each instance its own)
+    MUT = ("append", "add", "update", "setdefault", "pop", "popitem", "clear", "extend", "insert", "remove", "discard", "__setitem__", "appendleft", "sort", "reverse")
+    for cfn, c in sorted(prog.classes.items()):
+        if module_prefixes and not c.module.name.startswith(module_prefixes):
+            continue
+        for st in c.node.body:
+            if isinstance(st, ast.Assign) and len(st.targets) == 1 and isinstance(st.targets[0], ast.Name):
+                name, val = st.targets[0].id, st.value
+            elif isinstance(st, ast.AnnAssign) and isinstance(st.target, ast.Name) and st.value is not None:
+                name, val = st.target.id, st.value
+            else:
+                continue
+            shared = isinstance(val, (ast.List, ast.Dict, ast.Set, ast.ListComp, ast.DictComp, ast.SetComp)) or \
+                (isinstance(val, ast.Call) and call_name(val) in ("dict", "list", "set", "defaultdict", "deque", "Counter", "OrderedDict", "bytearray"))
+            if not shared:
+                continue
+            family = [k for k in prog.classes.values() if prog.is_subclass(k, c.fullname)]
+            rebound = any(isinstance(a, (ast.Assign, ast.AnnAssign)) and any(is_self_attr(t, name) for t in (a.targets if isinstance(a, ast.Assign) else [a.target]))
+                          for k in family + prog.mro(c) for m_ in [k.methods.get("__init__"), k.methods.get("__post_init__")] if m_ is not None
+                          for a in walk_local(m_.node))
+            writes = []
+            for k in family:
+                for m_ in k.methods.values():
+                    for x in walk_local(m_.node):
+                        if isinstance(x, (ast.Assign, ast.AugAssign, ast.Delete)):
+                            for t in (x.targets if isinstance(x, (ast.Assign, ast.Delete)) else [x.target]):
+                                if isinstance(t, ast.Subscript) and is_self_attr(t.value, name):
+                                    writes.append((m_, x))
+                                if isinstance(x, ast.AugAssign) and is_self_attr(t, name):
+                                    writes.append((m_, x))
+                        elif isinstance(x, ast.Call) and isinstance(x.func, ast.Attribute) and x.func.attr in MUT and is_self_attr(x.func.value, name):
+                            writes.append((m_, x))
+            n += 1
+            bad = bool(writes) and not rebound
+            wf, wn = writes[0] if writes else (None, None)
+            ctx.ob(rid, wf if bad else None, wn if bad else st, f"class-level container {c.name}.{name} is only read, or every instance gets its own"[:120], not bad,
+                   "" if not bad else (f"{c.name}.{name} is created once in the class body and '{norm(wn)[:60]}' modifies it through self: every instance shares the "
+                                       f"one container, so what one object (one mapping, one search) leaves in it is seen by the next"),
+                   module=c.module.relpath)
     return n
+
+
+def rule_r5(ctx: Ctx) -> None:
+    """A population initializer is configuration: searches hand the same object (and the list of programs it was built around) to
+    one run after another.  E3 with `self` as the owned root over every method of every PopulationInitializer subclass except the
+    constructor: nothing is stored into the initializer, into a container it holds, or into an element of one - so the second
+    search of a process starts from what the first one started from."""
+    from ..mutation import MutationAnalysis
+    from .common import INITIALIZER
+    prog, res = ctx.prog, ctx.res
+    ctx.rule("C08.R5", "population initializers keep no state between calls: nothing is stored into the initializer or into the containers it was built around")
+    ma = MutationAnalysis(prog, res, depth=6 if ctx.tier == "thorough" else 4)
+    n = 0
+    for c in sorted(prog.subclasses(INITIALIZER, strict=False), key=lambda k: k.fullname):
+        for name, m in sorted(c.methods.items()):
+            if name in ("__init__", "__post_init__") or not m.params or m.params[0] != "self":
+                continue
+            n += 1
+            muts = ma.analyse(m, {"self": 0})
+            if not muts:
+                ctx.ob("C08.R5", m, m.node, "no store into the initializer's own state", True, "")
+            for mu in muts:
+                ctx.ob("C08.R5", m, mu.node, f"{mu.how} on {mu.what}"[:120], False,
+                       f"'{norm(mu.node)[:70]}' modifies the initializer ({mu.what}) while a population is being created: the next search that uses the same "
+                       f"initializer - or the same list of programs - starts from a different state than the first (programs already wrapped, evaluated, cached)"
+                       + (f" [via {' -> '.join(mu.chain)}]" if mu.chain else ""))
+    ctx.floor("C08.R5", n, 5, "methods of population initializers")
 
 
 def run(ctx: Ctx) -> None:
@@ -390,6 +457,7 @@ def run(ctx: Ctx) -> None:
     rule_r2(ctx)
     rule_r3(ctx)
     rule_r4(ctx)
+    rule_r5(ctx)
     ctx.assumptions += [
         "mypy's inferred types identify the set-typed expressions (Any-typed sets are not seen)",
         "dict iteration order is insertion order (language guarantee); dicts built from a set inherit its order only if enumerated",
